@@ -7,6 +7,7 @@ import CircBuf.Lemmas.Contig
 import CircBuf.Lemmas.Drain
 import CircBuf.Lemmas.Contents
 import CircBuf.Lemmas.ExtendSlice2
+import CircBuf.Lemmas.History
 /-!
 # C01 — every mutator implements bounded-deque sequence semantics
 
@@ -129,6 +130,21 @@ theorem C01_write (b : CB) (h : Inv b) (i : Nat) (hi : i < b.size) (v : Elem) :
     Inv { b with items := setCell b.items (phys b.start b.cap i) (some v) } ∧
     abs { b with items := setCell b.items (phys b.start b.cap i) (some v) } = (abs b).set i v :=
   write_spec b h i hi v
+
+/-- **every finite history**: any sequence of (push / try_push / pop at both ends, remove, swap incl.
+its documented panics, swap_remove, truncate, clear, make_contiguous) operations, run from any state
+satisfying the invariant, produces the outputs and the final contents of the same sequence on the
+abstract deque -/
+theorem C01_history (cap : Nat) (ops : List Op) (s : Sys) (g : Good cap s) :
+    (runOps ops s).1 = (Spec.runOps cap ops (abs s.buf)).1 ∧
+    abs (runOps ops s).2.buf = (Spec.runOps cap ops (abs s.buf)).2 ∧ Good cap (runOps ops s).2 :=
+  history_refines cap ops s g
+
+/-- … in particular from `new()`, for every capacity `< 2^64` (0 and 1 included) -/
+theorem C01_history_from_new (cap : Nat) (hc : cap < W) (ops : List Op) (k : Kind) :
+    (runOps ops { buf := CB.new cap, kind := k }).1 = (Spec.runOps cap ops []).1 ∧
+    abs (runOps ops { buf := CB.new cap, kind := k }).2.buf = (Spec.runOps cap ops []).2 :=
+  history_from_new cap hc ops k
 
 /-- non-vacuity: a wrapped, full buffer of capacity 3 (front position 2) satisfies the invariant -/
 example : Inv ⟨3, 3, 2, fun i => some ⟨i + 1, 10 * i⟩⟩ := by
